@@ -6,6 +6,7 @@ from .. import poly
 from ..interp import (Interp, Hooks, Opaque, Str, Tup, Const, Cmp, NotC, Truthy, IsNone, FuncRef,
                       ExtRef, NONE, Sym as _Sym)
 from ..model import AnalysisError
+from .. import purity
 
 F = Fraction
 # SVG 1.1 section 7.10 / CSS absolute units at 96 px per inch: factor unit -> px
@@ -277,6 +278,7 @@ def run(ck, prog, tier):
                        'floating-point rounding not modelled']
     ck.trusted += ['python ast module', 'vf.interp', 'SVG 1.1 7.10 unit table transcribed in '
                    'vf/props/c12.py']
+    purity.check(ck, prog, ['plot_utils.parseLengthWithUnits', 'plot_utils.getLength', 'plot_utils.getLengthInches', 'plot_utils.unitsToUserUnits', 'plot_utils.userUnitToUnits'], 'C12-R-pure')
     tables = converter_table(ck, prog)
     rows = parser_table(ck, prog)
     ck.floor('converter table rows', sum(len(t) for t in tables.values()), 4 * 9)
